@@ -111,7 +111,8 @@ def obligations(prog, src, tier, seed):
         else:
             named = scn.get("header.host")
         if named is None:
-            return False
+            # nothing to validate: must be forwarded, and must not be flagged as validated
+            return (not forwarded) or out.get("validated") == "true"
         from inputs import parse_authority
         host = parse_authority(named)[0].lower()
         if scn["tls"] == "no_sni":
